@@ -29,7 +29,9 @@ Other(p, dflt) == IF pos = p THEN X ELSE IF ctx = "bare" THEN <<>> ELSE dflt
 Parts == [ns |-> Other("ns", <<97>>),
           name |-> IF pos = "name" THEN X ELSE <<110>>,
           ver |-> Other("ver", <<49>>),
-          quals |-> IF pos = "qv" THEN << <<<<107>>, X>> >> ELSE IF ctx = "bare" THEN <<>> ELSE << <<<<107>>, <<118>>>> >>,
+          \* "full": three qualifiers whose order separates lower- from upper-case folding ('_' < 'a' but '_' > 'A')
+          quals |-> IF ctx = "bare" THEN (IF pos = "qv" THEN << <<<<107>>, X>> >> ELSE <<>>)
+                    ELSE << <<<<107>>, IF pos = "qv" THEN X ELSE <<118>>>>, <<<<107,95>>, <<49>>>>, <<<<107,97>>, <<50>>>> >>,
           sub |-> Other("sub", <<115>>)]
 St == <<116>>
 Out == BuildF(Generic, St, Parts, LowerTab)
